@@ -3,4 +3,5 @@ CONSTANT Levels = 2
 INIT Init
 NEXT Next
 INVARIANT Inv
+INVARIANT InvF
 CHECK_DEADLOCK FALSE
